@@ -364,14 +364,14 @@ CommOf(pre) ==
       e == pre[MaxOr0(S)] IN
   IF e.k = "st.commit" THEN e.snap ELSE e.store
 Pseudo(pre, s) ==
-  LET last == pre[Len(pre)]
+  LET last == pre[MaxOr0(IdxWhere(pre, LAMBDA e : e.k # "ctl.reply"))]   \* (replies are logged when the driver sees them)
       http == IdxWhere(pre, LAMBDA e : e.k \in HttpKinds)
       sent == IdxWhere(pre, LAMBDA e : e.k = "ctl.send")
       answered == {pre[i].req : i \in IdxWhere(pre, LAMBDA e : e.k = "ctl.reply")}
       out == SelectSeq([i \in 1..Len(pre) |-> i], LAMBDA i : i \in sent /\ pre[i].req \notin answered) IN
   [s EXCEPT !.pc = "OP", !.op.kind = last.k,
             !.clk = [w |-> last.tw, m |-> last.tm],
-            !.store.comm = CommOf(SubSeq(pre, 1, Len(pre) - 1)),   \* (the last line is the operation still pending)
+            !.store.comm = CommOf(SubSeq(pre, 1, MaxOr0(IdxWhere(pre, LAMBDA e : e.k # "ctl.reply")) - 1)),   \* (the last line is the operation still pending)
             !.store.cnt = [k \in {"st.set", "st.rm", "st.commit"} |-> CountK(pre, k)],
             !.cnt = [uc |-> CountK(pre, "http.uc"), ev |-> CountK(pre, "http.ev"), ping |-> CountK(pre, "http.ping"),
                      plan |-> CountK(pre, "inst.plan"), start |-> CountK(pre, "pol.start"), install |-> CountK(pre, "inst.install"),
@@ -933,8 +933,9 @@ W3_Ctl(a) ==
          n == st.cnt.allowed + 1
          reply == Stamp([k |-> "ctl.reply", req |-> rq.req, ans |-> "already"], Tick(st.clk)) IN
      IF od
-       \* (:484-489 the request is answered AlreadyRunning first, then the policy is asked)
-       THEN /\ Emit(<<reply, Stamp([k |-> "pol.rballowed", n |-> n, src |-> "ondemand", ans |-> a], st.clk)>>)
+       \* (:484-489 the request is answered AlreadyRunning first, then the policy is asked; the driver sees the reply
+       \* only once the machine blocks, so it is logged after the question: `early` records the causal order)
+       THEN /\ Emit(<<Stamp([k |-> "pol.rballowed", n |-> n, src |-> "ondemand", ans |-> a], st.clk), reply @@ [early |-> TRUE]>>)
             /\ script' = script \o Ans("pol.rballowed", n, a)
             /\ st' = [st EXCEPT !.ctlq = Tail(@), !.ck.optSrc = "ondemand", !.clk = Tick(@), !.cnt.allowed = n,
                                 !.pc = IF a THEN "W9" ELSE "W3"]
